@@ -521,9 +521,9 @@ int main(int argc, char** argv) {
         long n = a.cases;
         long nWrap = a.num("wrap", (n * 25 + 50) / 100), nTb = a.num("tb", (n * 15 + 50) / 100);
         long nHist = std::max(0L, n - nWrap - nTb);
-        vh::runProp("hist", nHist, 30.0, [&](Choices& c) { runAndJudge(genCase(c, "hist"), st); });
-        vh::runProp("wrap", nWrap, 30.0, [&](Choices& c) { runAndJudge(genCase(c, "wrap"), st); });
-        vh::runProp("tb", nTb, 12.0, [&](Choices& c) { runAndJudge(genCase(c, "tb"), st); });
+        vh::runProp("hist", nHist, 60.0, [&](Choices& c) { runAndJudge(genCase(c, "hist"), st); });
+        vh::runProp("wrap", nWrap, 60.0, [&](Choices& c) { runAndJudge(genCase(c, "wrap"), st); });
+        vh::runProp("tb", nTb, 20.0, [&](Choices& c) { runAndJudge(genCase(c, "tb"), st); });
         rc = vh::finish();
     }
     if (system(("rm -rf " + gWork).c_str())) {}
